@@ -22,24 +22,24 @@ import (
 const modulePath = "github.com/ulikunitz/xz"
 
 type Engine struct {
-	prog      *ssa.Program
-	pkgs      []*packages.Package
-	specs     *Specs
-	fnByKey   map[string]*ssa.Function
-	strIDs    map[string]int64
-	funcIDs   map[*ssa.Function]int64
-	globalIDs map[*ssa.Global]int64
-	typeTags  map[string]int64
-	qctr      int
-	sentinels map[*ssa.Global]int64
-	storedGlobals map[*ssa.Global][]string // global -> functions (non-init) that store to it
-	namedTypes []types.Type
-	repo      string
-	loadSecs  float64
+	prog           *ssa.Program
+	pkgs           []*packages.Package
+	specs          *Specs
+	fnByKey        map[string]*ssa.Function
+	strIDs         map[string]int64
+	funcIDs        map[*ssa.Function]int64
+	globalIDs      map[*ssa.Global]int64
+	typeTags       map[string]int64
+	qctr           int
+	sentinels      map[*ssa.Global]int64
+	storedGlobals  map[*ssa.Global][]string // global -> functions (non-init) that store to it
+	namedTypes     []types.Type
+	repo           string
+	loadSecs       float64
 	globalStoreLog map[string][]string
-	curProp string
-	crossCheck bool // thorough tier: every unsat answer is re-asked from a second solver
-	globalInits map[*ssa.Global]*globalInit
+	curProp        string
+	crossCheck     bool // thorough tier: every unsat answer is re-asked from a second solver
+	globalInits    map[*ssa.Global]*globalInit
 }
 
 func NewEngine(repo string, specDir string) (*Engine, error) {
@@ -222,17 +222,17 @@ func (e *Engine) openInterface(t types.Type) bool {
 // ---------- verification of one function ----------
 
 type FnResult struct {
-	Key        string
-	Mode       string
-	Obs        []*Obligation
-	Errs       []string
-	Abstr      map[string]int
-	Assumed    []string
-	Inlined    []string
-	Seconds    float64
-	NoBody     bool
-	tb         *TB
-	ctx        *FnCtx
+	Key     string
+	Mode    string
+	Obs     []*Obligation
+	Errs    []string
+	Abstr   map[string]int
+	Assumed []string
+	Inlined []string
+	Seconds float64
+	NoBody  bool
+	tb      *TB
+	ctx     *FnCtx
 }
 
 func (e *Engine) newFnCtx(fn *ssa.Function, ctr *Contract) *FnCtx {
@@ -689,7 +689,6 @@ func axiomRelevant(ax *Term, seen map[int]bool) bool {
 var bigZero = newBig(0)
 
 var _ = token.NoPos
-
 
 func hasQuantText(script string) bool {
 	return strings.Contains(script, "(forall ") || strings.Contains(script, "(exists ")
